@@ -136,6 +136,11 @@ func callGFunction(L *LState, tailcall bool) bool {
 	}
 
 	if gfnret < 0 {
+		if L.Parent != nil && L.nGoCalls > 0 {
+			// a Go function (pcall, a metamethod or iterator call, the Go API) called the code that
+			// yields: its Go frames cannot be suspended
+			L.RaiseError("attempt to yield across metamethod/C-call boundary")
+		}
 		switchToParentThread(L, L.GetTop(), false, false)
 		return true
 	}
